@@ -8,13 +8,43 @@ E1 = "E1 bounded-exhaustive enumerator (mc/runner.py, mc/props/*)"
 E2 = "E2 fork-replay explicit-state explorer (mc/explore/hist.py)"
 E3 = "E3 preemption-bounded thread-schedule explorer (mc/explore/sched.py)"
 
+def claim(design, technique, text, note, engine=E1, category="exploration"):
+    return dict(engine=engine, category=category, design_ref=f"DESIGN.md section 3, {design}", technique=technique, text=text, note=note)
+
+
+BE = "bounded-exhaustive enumeration on the real code"
+
 CLAIMS = {
-    "C01": dict(
-        engine=E1, category="exploration", design_ref="DESIGN.md section 3, C01",
-        technique="bounded-exhaustive enumeration of operand pairs x operators x access paths on the real code, oracle = exact integer / rational-rounded binary64 reference model",
-        text="Every ordered pair over the int64/uint64 boundary alphabets and the double alphabet, for every arithmetic operator and unary minus, through the celtypes dunders, the reflected dunders, bound-variable expressions and literal expressions under both runners, is compared with exact arithmetic; the space is finite and enumerated completely, so within the alphabet no wrapped, saturated, wrongly signed or wrongly rounded result can exist.",
-        note="Operands outside the alphabets are not explored. Double reference trusts CPython's correctly rounded int/int division (cross-checked against hardware floats in the self-test).",
-    ),
+    "C01": claim("C01", BE + " of operand pairs x operators x access paths; oracle = exact integer / rational-rounded binary64 reference model",
+                 "Every ordered pair over the int64/uint64 boundary alphabets and the double alphabet, for every arithmetic operator and unary minus, through the celtypes dunders, the reflected dunders, bound-variable expressions and literal expressions under both runners, is compared with exact arithmetic; the space is finite and enumerated completely, so within the alphabet no wrapped, saturated, wrongly signed or wrongly rounded result can exist.",
+                 "Operands outside the alphabets are not explored. Double reference trusts CPython's correctly rounded int/int division (cross-checked against hardware floats in the self-test)."),
+    "C02": claim("C02", BE + " of every nesting of ! && || ?: to two operator levels over {true, false, one error leaf per failing mechanism, non-boolean}, every {T,F,E} list of length <= 4 for all()/exists(), swap differential; oracle = three-valued (Kleene) reference with UNSPEC",
+                 "All assignments of outcome classes to operand positions up to two operator levels are run under both runners (level 1 also straight through celtypes.logical_*) and compared with a Kleene table that only states what the property states; lists of outcomes are folded by the same table; commutativity is additionally checked as a differential on every pair.",
+                 "Nesting deeper than two levels is not explored; error leaves are one per mechanism; cases the property is silent on (true && 1, !1) are counted, not compared."),
+    "C03": claim("C03", BE + " of the conformance corpus and of every generated term to two operator levels under three activations; differential oracle interpreter vs transpiler (separate processes)",
+                 "Every corpus expression and every term of the generator's signature (each operator, function, method, macro, index, select, has, ?: over every leaf tuple; level-2 roots over typed results, error leaves and literal spellings; size-limit family) is evaluated by both runners in separate worker processes and the canonical outcomes are compared; an asymmetric pair is a violation attributed to its minimal diverging sub-term.",
+                 "Terms beyond two operator levels only through the corpus; constructs outside the CEL language definition (reduce, min, cel.block, optional.*, two-variable comprehensions) are not compared."),
+    "C04": claim("C04", BE + " of all token strings up to 4 (thorough 5) tokens plus every single-token edit of every corpus expression (compile), and of the generated program space x 3 activations x 2 runners (evaluate); oracle = outcome class in {value, CEL error, parse error with position inside the text}, str()/repr() of every raised error",
+                 "No input in the enumerated spaces makes compile(), program() or evaluate() raise anything but the library's parse / evaluation errors, every parse error carries a line and column inside the text, and every raised error renders.",
+                 "Strings longer than the token bound only as edited corpus expressions; host functions raising arbitrary exceptions are outside the property."),
+    "C07": claim("C07", BE + " of every string/byte string over a difficult-character alphabet up to length 3 (thorough 4) in each quoting style and escaping strategy, every legal literal body up to length 4/5 over a source alphabet, int/uint boundary values in every spelling, doubles in every spelling; oracle = independent literal encoder/decoder (litcodec)",
+                 "Encoding any enumerated value as a CEL literal in any style and evaluating it under either runner returns the value; every legal escape body decodes to the code points / octets the language definition prescribes; numeric literals denote the spelled number or are errors when out of range.",
+                 "Characters outside the alphabet (one representative per UTF-8 length, escape class and quote class) and longer strings are not explored; spellings outside legal CEL are not compared."),
+    "C08": claim("C08", BE + " of all ordered pairs (and, on the relation matrix, all triples) of same-type values per CEL type; oracle = order/equality laws + reference order of the plain values",
+                 "For every type alphabet the six relations are evaluated on every ordered pair through bound variables, literals and raw/wrapped operands under both runners; reflexivity, symmetry, negation, trichotomy, converse, <= definition and transitivity are checked on the complete matrix, plus agreement with an independent reference (code points, instants, structural congruence).",
+                 "NaN and cross-type comparisons are outside the property; values outside the alphabets are not explored."),
+    "C10": claim("C10", BE + " of conversion round trips over boundary integers, doubles, strings/bytes over an alphabet, whole-second timestamps and durations, and unparsable texts; oracle = independent text/number/time reference (convref, timetext)",
+                 "Every listed round trip holds for every enumerated value under both runners, truncation is toward zero, and every out-of-range or unparsable conversion is an evaluation error.",
+                 "Values outside the alphabets; spellings the property is silent on (surrounding spaces, underscores, non-ASCII digits, nan/inf, out-of-range offset minutes) are counted, not compared."),
+    "C11": claim("C11", BE + " of instants x durations x offsets x IANA zones x accessors and of duration texts; oracle = pure-integer proleptic-Gregorian calendar and exact rational duration grammar",
+                 "All arithmetic identities, range errors, the ten accessors in UTC / every 15-minute offset / seven IANA zones, and every duration text of the bounded grammar agree with an independent calendar computation that never imports datetime.",
+                 "Leap seconds, pre-1971 IANA offsets and instants outside the alphabet are not explored; local civil dates leaving years 1..9999 are not compared."),
+    "C13": claim("C13", BE + " of every well-typed term of the generator (root and nested one level); oracle = reference type checker -> library class (recursively) and type(e) == T for all twelve type names",
+                 "For each well-typed program both runners' return values are instances of the library class of the program's CEL type, containers hold library objects only, and type(e) == T is true for exactly the matching name.",
+                 "Only the signature of mc/gen.py is typed; programs that raise at run time have no value to judge."),
+    "C15": claim("C15", BE + " of all JSON documents to depth 2 (thorough 3) over a scalar alphabet and of every valid path in every spelling; oracle = type-strict JSON equality, class mapping, path walk, RFC 3339 / seconds / base64 references",
+                 "Every enumerated document converts to the prescribed CEL classes, round-trips type-strictly through json.dumps and json.dump with the library encoder, and every path reaches the same element under both runners; timestamps, durations and bytes encode as prescribed.",
+                 "Documents beyond the depth/size bound and scalars outside the alphabet are not explored; fractional-second encodings are not compared."),
 }
 
 NOT_YET = "check not built yet in this session (see DESIGN.md section 9 build order)"
